@@ -22,7 +22,7 @@ TrSans == SanL
 VARIABLE tid
 tvars == <<st, tid>>
 
-CfgOfRec(p) == [reqs |-> p.reqs, ah |-> p.ah, fp |-> p.fp, sh |-> p.sh, ctx |-> p.ctx, casrc |-> p.casrc,
+CfgOfRec(p) == [reqs |-> p.reqs, ah |-> p.ah, fp |-> p.fp, sh |-> p.sh, ctx |-> p.ctx, casrc |-> p.casrc, hist |-> p.hist,
                 backend |-> p.backend, route |-> p.route]
 SrvOfRec(p) == [issuer |-> p.issuer, san |-> p.san, host |-> p.host]
 
@@ -60,7 +60,7 @@ DriftClause(m, o, r) ==
     ELSE IF Len(r.conns) = 0 THEN "Dials"        \* (a retrying caller dials again after a failed check)
     ELSE "ok"
 
-Dummy == InitState([reqs |-> "default", ah |-> "unset", fp |-> "unset", sh |-> "unset", ctx |-> "none", casrc |-> "file",
+Dummy == InitState([reqs |-> "default", ah |-> "unset", fp |-> "unset", sh |-> "unset", ctx |-> "none", casrc |-> "file", hist |-> "fresh",
                     backend |-> "ssl", route |-> "direct"],
                    [issuer |-> "trusted", san |-> "exact", host |-> "lower"])
 
